@@ -580,10 +580,16 @@ def solve_obs(cls, G, kw, node_mode, want_remove_empty=False):
 
 def mfdc_explicit(H, ekw, xstarts, xends):
     """MinFlowDecompCycles rejects additional starts/ends in edge mode; the explicit instance is solved by the
-    same minimum search over kFlowDecompCycles on the expansion"""
+    same minimum search (width lower bound, then increasing k) over kFlowDecompCycles on the model's expansion"""
+    import flowpaths as fp
     kw = dict(ekw); kw["additional_starts"] = list(xstarts); kw["additional_ends"] = list(xends)
     last = None
-    for k in range(1, H.number_of_edges() + 2):
+    try:                                                # the class starts its search at the width of the graph
+        st = fp.stDiGraph(H, additional_starts=list(xstarts), additional_ends=list(xends))
+        lb = max(1, st.get_width(edges_to_ignore=[tuple(e) for e in ekw.get("elements_to_ignore", [])] + list(st.source_sink_edges)))
+    except Exception as e:
+        return {"exc": type(e).__name__ + ": " + str(e)[:120], "solved": None}
+    for k in range(lb, H.number_of_edges() + 2):
         kw["k"] = k
         last = solve_obs("kFlowDecompCycles", H, kw, False)
         if last["exc"] or last["solved"]:
@@ -787,3 +793,73 @@ def run(ctx):
     e3_cases(ctx, ctx.budget(400, 6000), "plain", False)
     e3_cases(ctx, ctx.budget(250, 3000), "adversarial", True)
     e2_cases(ctx, ctx.budget(int(os.environ.get("C11_E2_PER_CLASS", "30")), 150))
+
+
+# ----------------------------------------------------------------------------- replay
+def _graph_from(nodes, edges):
+    G = nx.DiGraph()
+    for v, a in nodes:
+        G.add_node(v, **{k: x for k, x in a})
+    for u, v, a in edges:
+        G.add_edge(u, v, **{k: x for k, x in a})
+    return G
+
+
+def replay(ctx, body):
+    """Re-executes a recorded observation against the working tree; True = still failing."""
+    import flowpaths as fp
+    if "class" in body:                                  # an E2 case: node mode vs the recorded explicit instance
+        cls = body["class"]; kind, has_k, cons_kw, se, fam, rkey = CLASSES[cls]
+        G = _graph_from(body["nodes"], body["edges"])
+        H = _graph_from(body["explicit"]["nodes"], body["explicit"]["edges"])
+        fix = lambda kw: {k: ({"int": int, "float": float}[v] if k == "weight_type" else
+                              ([[tuple(e) if isinstance(e, list) else e for e in c] for c in v] if k == cons_kw else
+                               ([tuple(e) if isinstance(e, list) else e for e in v] if k == "elements_to_ignore" else v)))
+                          for k, v in kw.items()}
+        kw = fix(body["kwargs"]); ekw = fix(body["explicit"]["kwargs"])
+        inst = {"starts": kw.get("additional_starts", []), "ends": kw.get("additional_ends", []), "ign": kw.get("elements_to_ignore", [])}
+        nobs = solve_obs(cls, G, kw, True, want_remove_empty=cls in REMOVE_EMPTY)
+        if cls == "MinFlowDecompCycles" and (inst["starts"] or inst["ends"]):
+            eobs = mfdc_explicit(H, {k: v for k, v in ekw.items() if k not in ("additional_starts", "additional_ends")},
+                                 ekw.get("additional_starts", []), ekw.get("additional_ends", []))
+            nobs.pop("objective", None)
+        else:
+            eobs = solve_obs(cls, H, ekw, False, want_remove_empty=cls in REMOVE_EMPTY)
+        issues = [x for x in e2_compare(cls, G, inst, nobs, eobs) if x != "both_raise"]
+        for what, key in issues:
+            print("now:", what, "(key %s)" % key if key else "")
+        return bool(issues)
+    if "kind" in body:                                   # an E3 case: call the method again, compare with the recorded model answer
+        info = body["info"]; kind = body["kind"]
+        G = _graph_from(info["nodes"], info["edges"])
+        NE = fp.NodeExpandedDiGraph
+        orig_fill = NE._try_filling_in_missing_flow_values
+        NE._try_filling_in_missing_flow_values = lambda self: None
+        try:
+            st, ne = impl_call(lambda: NE(copy.deepcopy(G), "flow", try_filling_in_missing_flow_attr=info["try_fill"], node_length_attr=info["len"],
+                                          additional_starts=list(info["starts"]), additional_ends=list(info["ends"])))
+        finally:
+            NE._try_filling_in_missing_flow_values = orig_fill
+        if kind == "construct":
+            now = ("OK", [[v, items(d)] for v, d in ne.nodes(data=True)], [[(u, v), items(d)] for u, v, d in ne.edges(data=True)],
+                   [tuple(e) for e in ne.edges_to_ignore]) if st == "OK" else ("ERR", ne)
+        elif st != "OK":
+            print("constructor fails now:", ne); return True
+        elif kind == "cons":
+            cons = [[tuple(e) if isinstance(e, list) else e for e in c] for c in info["constraints"]]
+            now = impl_call(lambda: [[tuple(e) for e in c] for c in ne.get_expanded_subpath_constraints(cons)])
+        elif kind == "condense":
+            now = impl_call(lambda: ne.get_condensed_paths(info["paths"]))
+        elif kind == "elem":
+            el = tuple(info["elem"]) if isinstance(info["elem"], list) else info["elem"]
+            now = impl_call(lambda: tuple(ne.get_expanded_edge(el)))
+        elif kind in ("starts", "ends"):
+            f = ne.get_expanded_additional_starts if kind == "starts" else ne.get_expanded_additional_ends
+            now = impl_call(lambda: f(info["list"]))
+        else:
+            print("replay of kind", kind, "not supported; recorded:", json.dumps(body["impl"], default=list)[:400]); return False
+        same = json.dumps(now, default=list) == json.dumps(body["model"], default=list)
+        print("implementation now:", json.dumps(now, default=list)[:600]); print("model:", json.dumps(body["model"], default=list)[:600])
+        return not same
+    print(json.dumps(body, default=str)[:1000])
+    return False
